@@ -83,6 +83,11 @@ func (e *Engine) verifyFunc(key string) (res *FuncResult) {
 	if c.Decreases != nil {
 		x.entryDecr = env.evalInt(c.Decreases)
 	}
+	// lemma instances over the parameters are also available inside the body (loop invariants need them);
+	// instances that mention results are only applied at the returns
+	for _, u := range c.Uses {
+		x.tryUseAtEntry(env, u)
+	}
 	// vacuity guard: the precondition must be satisfiable
 	x.obls = append(x.obls, &Obligation{Fn: x.key, Kind: "cover.pre", Props: c.Props, PC: append([]*Term(nil), st.pc...), Goal: False, Cover: true, Inputs: x.inputs})
 
@@ -137,6 +142,19 @@ func (x *Exec) applyUse(env *Env, c *Contract, u Clause) {
 		if r := recover(); r != nil {
 			if ee, ok := r.(evalError); ok {
 				x.fail("contract %s, use %s: %s", c.Key, u.Src, ee.msg)
+			}
+			panic(r)
+		}
+	}()
+	t := env.applyLemma(u.Expr.(*ast.CallExpr))
+	env.st.assume(t)
+}
+
+func (x *Exec) tryUseAtEntry(env *Env, u Clause) {
+	defer func() {
+		if r := recover(); r != nil {
+			if _, ok := r.(evalError); ok {
+				return // mentions a result: applied at the returns
 			}
 			panic(r)
 		}
